@@ -50,6 +50,11 @@ async def party_main(world, p, prog, case):
     s = seclist(x, T)
     other = None
     trace = []
+    # a second reference to the same list object (like `t = s` in Python): in-place operations (+=, *=, extend,
+    # append, insert, sort, item assignment ...) must stay visible through it, `s = s + x` / `s * n` / copy() rebind
+    track_alias = bool(prog.get('alias'))
+    alias = s
+    atrace = []
 
     async def open1(v):
         # some operations on empty lists return public Python numbers
@@ -91,6 +96,7 @@ async def party_main(world, p, prog, case):
                 obj = getattr(s, name)(T(val(op[1])))
             pending = (len(trace), obj)
             trace.append([len(s), None, None])
+            atrace.append(None)
             continue
         if name == 'get':
             _, how, i = op
@@ -138,6 +144,8 @@ async def party_main(world, p, prog, case):
             s = [T(val(v)) for v in op[1]] + s
         elif name == 'iadd':
             s += seclist([T(val(v)) for v in op[1]], T)
+        elif name == 'imul':
+            s *= op[1]
         elif name == 'mul':
             s = s * op[1]
         elif name == 'rmul':
@@ -169,11 +177,13 @@ async def party_main(world, p, prog, case):
             pending = None
             trace[k_][2] = await open1(obj)
         trace.append([len(s), await opened(s), r])
+        if track_alias:
+            atrace.append('same' if alias is s else await opened(alias))
         if check_keys and used_key is not None:
             got = await opened(used_key[0])
             if got != used_key[1]:
                 keys_bad.append([opi, got, used_key[1]])
-    return {'trace': trace, 'keys_bad': keys_bad}
+    return {'trace': trace, 'keys_bad': keys_bad, 'alias': atrace if track_alias else None}
 
 
 def _pl(v):
@@ -184,8 +194,9 @@ def _pl(v):
 
 # ------------------------------------------------------------------ model
 
-def model(prog):
+def model(prog, alias_out=None):
     ref = list(prog['init'])
+    aref = ref
     out = []
     for op in prog['ops']:
         name = op[0]
@@ -208,7 +219,13 @@ def model(prog):
             r = ref.pop() if op[1] == 'default' else ref.pop(op[2])
         elif name == 'append':
             ref.append(op[1])
-        elif name in ('extend', 'add', 'iadd'):
+        elif name == 'extend':
+            ref.extend(list(op[1]))
+        elif name == 'iadd':
+            ref += list(op[1])
+        elif name == 'imul':
+            ref *= op[1]
+        elif name == 'add':
             ref = ref + list(op[1])
         elif name == 'radd':
             ref = list(op[1]) + ref
@@ -233,6 +250,8 @@ def model(prog):
             r = int({'lt': ref < ys, 'le': ref <= ys, 'eq': ref == ys, 'ne': ref != ys, 'ge': ref >= ys,
                      'gt': ref > ys}[op[1]])
         out.append([len(ref), list(ref), r])
+        if alias_out is not None:
+            alias_out.append('same' if aref is ref else list(aref))
     return out
 
 
@@ -256,6 +275,16 @@ def judge(fam, case, cfg, w, res):
                 res.violations.append(('wrong-value',
                                        f"party {p.pid}: after op #{k} {prog['ops'][k]}: {what} differs: model {e} seclist {g}"[:500]))
                 return
+        if p.result.get('alias') is not None:
+            ea = []
+            model(prog, alias_out=ea)
+            for k, (e, g) in enumerate(zip(ea, p.result['alias'])):
+                if g is not None and e != g:
+                    res.violations.append(('wrong-value',
+                                           f"party {p.pid}: after op #{k} {prog['ops'][k]}: a second reference to the list "
+                                           f"(t = s at the start) shows {g}, with a Python list it shows {e} "
+                                           f"('same' = still the same object)"[:500]))
+                    return
         for opi, got, want in p.result.get('keys_bad', []):
             res.violations.append(('wrong-value',
                                    f"party {p.pid}: op #{opi} {prog['ops'][opi]} modified the index vector passed by the caller: "
@@ -292,7 +321,7 @@ def gen(rng, cfg, tier='quick'):
             break
         n = len(ref)
         name = rng.choice(('get', 'get', 'set', 'set', 'setplain', 'del', 'del', 'delslice', 'getslice', 'setslice',
-                           'insert', 'insert', 'pop', 'pop', 'append', 'extend', 'add', 'radd', 'iadd', 'mul', 'rmul',
+                           'insert', 'insert', 'pop', 'pop', 'append', 'extend', 'add', 'radd', 'iadd', 'mul', 'rmul', 'imul',
                            'copy', 'remove', 'count', 'contains', 'find', 'index', 'sort', 'cmp', 'cmp'))
         how = rng.choice(('pub',) + sec)
         if name in ('get', 'set', 'setplain', 'del', 'pop'):
@@ -335,7 +364,7 @@ def gen(rng, cfg, tier='quick'):
             if n + len(vs) > MAXLEN:
                 continue
             op = [name, vs]
-        elif name in ('mul', 'rmul'):
+        elif name in ('mul', 'rmul', 'imul'):
             k = rng.choice((0, 1, 2))
             if n * k > MAXLEN:
                 continue
@@ -373,7 +402,7 @@ def gen(rng, cfg, tier='quick'):
         ops.append(op)
         ref = out[-1][1]
     return {'family': NAME, 'type': td, 'init': init, 'dummy': [0] * len(init), 'ops': ops, 'sender': rng.randrange(cfg.m),
-            'deferred': rng.random() < 0.35, 'check_keys': rng.random() < 0.5}
+            'deferred': rng.random() < 0.35, 'check_keys': rng.random() < 0.5, 'alias': rng.random() < 0.5}
 
 
 def shrink_candidates(case):
